@@ -1,6 +1,6 @@
 """Bounded stand-in (NOT a proof): index checkout converges to the target (C09).
 Bound: path names over {a,b,c}, depth <= 3, <= 5 files in the prior workspace and in the target; targets given as explicit
-file entries with explicit directory entries; all file<->directory replacements included; delete on/off; n pairs (seeded)."""
+file entries with explicit directory entries; all file<->directory replacements included; delete on/off; link types copy / hardlink / symlink; dangling symbolic links in the prior workspace; n pairs (seeded)."""
 import logging; logging.disable(logging.CRITICAL)
 import hashlib, json, os, random, sys, tempfile
 SRC = os.environ.get("PYVC_REPO_SRC", "/repo/src")
@@ -35,7 +35,8 @@ def main(n, seed):
             for d in ds:
                 out[tuple(os.path.relpath(os.path.join(r, d), root).split(os.sep))] = "<dir>"
             for f in fns:
-                out[tuple(os.path.relpath(os.path.join(r, f), root).split(os.sep))] = open(os.path.join(r, f), "rb").read()
+                q = os.path.join(r, f)
+                out[tuple(os.path.relpath(q, root).split(os.sep))] = open(q, "rb").read() if os.path.exists(q) else "<dangling link>"
         return out
 
     def unavailable_dir(case):
@@ -84,16 +85,29 @@ def main(n, seed):
         files_only = (not mode_lazy) and not empty_dirs and rnd.random() < 0.35
         # one file's object lives in a store of its own, registered at exactly that file's key (single-file-output layout)
         own_store_key = rnd.choice(sorted(target)) if (target and not mode_lazy and rnd.random() < 0.3) else None
+        link = rnd.choice(["copy", "copy", "hardlink", "symlink"])
+        # dangling symbolic links in the prior workspace (a symlink checkout whose cache object is gone), at fresh paths or target paths
+        dangling = []
+        for _ in range(rnd.choice([0, 0, 1, 2])):
+            k = tuple(rnd.choice("abcd") for _ in range(rnd.randint(1, 3)))
+            if not any((k[: len(o)] == o or o[: len(k)] == k) for o in list(prior) + dangling):
+                dangling.append(k)
+        if dangling:
+            with_md5 = False  # md5() keeps only entries it could hash: the prior index handed to compare has to be the walk itself
         delete = rnd.random() < 0.75
+        if dangling and any((t[: len(k)] == k or k[: len(t)] == t) and t != k for t in list(target) + empty_dirs for k in dangling):
+            delete = True
         if not delete and any((t[: len(k)] == k or k[: len(t)] == t) and t != k for t in list(target) + empty_dirs for k in prior):
             delete = True  # a path changing kind cannot converge without deletions: outside the statement's delete-off clause
-        distinct.add((tuple(sorted(prior)), tuple(sorted(target)), delete, mode_lazy, with_md5, tuple(empty_dirs), files_only, own_store_key))
+        distinct.add((tuple(sorted(prior)), tuple(sorted(target)), delete, mode_lazy, with_md5, tuple(empty_dirs), files_only, own_store_key, link, tuple(dangling)))
         with tempfile.TemporaryDirectory(dir="/var/tmp") as tmp:
             odb = HashFileDB(fs, os.path.join(tmp, "odb"))
             odb2 = HashFileDB(fs, os.path.join(tmp, "odb2"))
             ws = os.path.join(tmp, "ws"); os.makedirs(ws)
             for k, data in prior.items():
                 p = os.path.join(ws, *k); os.makedirs(os.path.dirname(p), exist_ok=True); open(p, "wb").write(data)
+            for k in dangling:
+                p = os.path.join(ws, *k); os.makedirs(os.path.dirname(p), exist_ok=True); os.symlink(os.path.join(tmp, "gone", "object"), p)
 
             lazy = mode_lazy
             def tgt():
@@ -127,7 +141,7 @@ def main(n, seed):
             try:
                 old = build(ws, fs)
                 d1 = compare(md5(old) if with_md5 else old, tgt(), delete=delete)
-                apply(d1, ws, fs, onerror=lambda *a: errors.append(a), links=["copy"])
+                apply(d1, ws, fs, onerror=lambda *a: errors.append(a), links=[link])
                 got = walk(ws)
                 want = {k: (v + b" (own store)" if k == own_store_key else v) for k, v in target.items()}
                 want.update({k[:j]: "<dir>" for k in target for j in range(1, len(k))})
@@ -139,7 +153,7 @@ def main(n, seed):
                 elif not delete and any(got.get(k) != v for k, v in want.items()):
                     problem = "target not materialised (delete off)"
                 elif not delete:
-                    lost = [k for k in prior if k not in got and not any(t[: len(k)] == k or k[: len(t)] == t for t in want)]
+                    lost = [k for k in list(prior) + dangling if k not in got and not any(t[: len(k)] == k or k[: len(t)] == t for t in want)]
                     if lost:
                         problem = f"delete off but {lost[:2]} outside the target were removed"
                 if problem is None and delete:
@@ -151,9 +165,9 @@ def main(n, seed):
                 problem = "raised " + repr(e)
             if problem:
                 fails.append({"prior": {"/".join(k): v.decode() for k, v in prior.items()}, "target": {"/".join(k): v.decode() for k, v in target.items()},
-                              "delete": delete, "files_only": files_only, "own_store": "/".join(own_store_key) if own_store_key else None, "problem": problem})
-    return {"evaluations": n, "distinct_nontrivial": len(distinct), "failures": fails[:3], "n_failures": len(fails),
-            "bound": "names over {a,b,c}, depth <= 3, <= 5 files on each side, explicit entries (with or without directory entries) or lazy directory objects, optional per-file storage, copy links"}
+                              "delete": delete, "link": link, "dangling_links": ["/".join(k) for k in dangling], "files_only": files_only, "own_store": "/".join(own_store_key) if own_store_key else None, "problem": problem})
+    return {"evaluations": n, "distinct_nontrivial": len(distinct), "failures": fails[:int(os.environ.get("VERIF_MAXFAIL", "3"))], "n_failures": len(fails),
+            "bound": "names over {a,b,c}, depth <= 3, <= 5 files on each side, explicit entries (with or without directory entries) or lazy directory objects, optional per-file storage; copy / hardlink / symlink link types; <= 2 dangling symbolic links in the prior workspace"}
 
 
 if __name__ == "__main__":
